@@ -99,6 +99,8 @@ def reversal_specs(ctx, n):
             if i % 2 == 1 or any(nd["type"] == "tank" for nd in spec["nodes"]):
                 break
         G.add_reversal_edits(rng, spec)
+        if i % 2 == 1:
+            G.add_refused_calls(rng, spec)
         if i % 2 == 0:
             G.add_name_collisions(rng, spec)   # after the edits: the source sits on a node the (reversed / re-assigned) link touches THEN
         out.append(spec)
@@ -232,10 +234,13 @@ def features(spec):
         "link_tank_to_tank": any(l["start"] in tanks and l["end"] in tanks for l in elinks),
         "link_reservoir_to_reservoir": any(l["start"] not in tanks and l["end"] not in tanks and
                                            {l["start"], l["end"]} <= set(n["name"] for n in srcs) for l in elinks),
+        "pattern_objects_with_foreign_time_options": bool(spec.get("pattern_objects")),
+        "refused_construction_calls": bool(spec.get("refused_calls")),
+        "power_pump_speed_not_1": any(l.get("speed", 1.0) != 1.0 for l in spec["links"]) or any(c.get("attr") == "base_speed" for c in spec.get("controls", [])),
         "name_collisions_across_kinds": bool(spec.get("sources")),
         "pattern_edited_in_place": bool(spec.get("pattern_inplace")),
         "second_run_after_edit": bool(spec.get("features", {}).get("second_run")),
-        "valve_setting_changed_by_control": any(c.get("attr", "setting") == "setting" for c in spec.get("controls", [])),
+        "valve_setting_changed_by_control": any(c.get("attr", "setting") == "setting" and not c.get("cond") for c in spec.get("controls", [])),
         "valve_setting_changed_by_postsolve_condition": any(c.get("cond") for c in spec.get("controls", [])),
         "tank_volume_curve": any(n.get("vol_curve") for n in spec["nodes"]),
         "pattern_interpolation": bool(spec["options"].get("pattern_interpolation")),
